@@ -3,7 +3,7 @@
 import json
 import os
 
-from core import (Infra, build_harness, count_traces, execute, generate, load_findings, model_check,
+from core import (Infra, build_harness, count_traces, execute, generate, model_check,
                   trace_events, validate, wrap, VERIF)
 import findings as F
 
@@ -68,22 +68,10 @@ def run_family(ctx, name, behaviours, tags, server_flags=None):
 
 
 def split_known(ctx, viols):
-    """Separates violations matching a listed known finding."""
-    known = {}
-    fresh = []
-    fl = [f for f in load_findings() if f.get("status", "open") == "open"]
-    for v in viols:
-        hit = None
-        for f in fl:
-            if ctx.prop in f["properties"] and F.matches(f, v):
-                hit = f
-                break
-        if hit:
-            known[hit["id"]] = hit["what"]
-            ctx.count("known_" + hit["id"])
-        else:
-            fresh.append(v)
-    return fresh, known
+    """Exploration runs with the guards of all open findings on, so every
+    violation it finds is new. The listed findings are (re)confirmed by their
+    own reproducers."""
+    return viols, F.run_reproducers(ctx, ctx.prop)
 
 
 def gen_pairs(ctx, typ, nsample, clients="Seq2", late="{}", maxsyncs=1, feat="{}", threshold=1000):
@@ -98,6 +86,24 @@ def gen_pairs(ctx, typ, nsample, clients="Seq2", late="{}", maxsyncs=1, feat="{}
                 threshold=threshold if threshold < 1000 else 0)
            for i, s in enumerate(behs)]
     return out, total
+
+
+def gen_sim(ctx, name, n, depth=120, alphabet="OpsMix", clients="Seq3", editors='{"c1", "c2", "c3"}', maxedits=4,
+            maxsyncs=6, feat='{"idle"}', late="{}", threshold=1000, kinds=None, init=None, weight=40, maxsess=1,
+            maxcompact=0, maxundo=0, interval=0, final="quiesce", seed_off=0):
+    kinds = kinds or MIXKINDS
+    init = MIXINIT if init is None else init
+    behs = generate(ctx, "gen_sim.cfg", overrides={
+        "Alphabet": alphabet, "ClientSeq": clients, "Editors": editors, "MaxEdits": str(maxedits),
+        "MaxSyncs": str(maxsyncs), "Feat": feat, "Late": late, "Threshold": str(threshold),
+        "InitEdits": str(1 + len(init)), "SyncWeight": str(weight), "MaxSess": str(maxsess),
+        "MaxCompact": str(maxcompact), "MaxUndo": str(maxundo)},
+        simulate="num=%d" % n, workers=1, timeout=600,
+        )
+    nc = int(clients[-1])
+    return [wrap(s, "%s-%d" % (name, i), nclients=nc, kinds=kinds, init=init, family=name,
+                 threshold=threshold if threshold < 1000 else 0, interval=interval, final=final)
+            for i, s in enumerate(behs)]
 
 
 C01_TAGS = {"Converged", "SyncNeverFails", "LogReplayable", "EditNeverFails", "CloneEqRoot"}
@@ -119,4 +125,94 @@ def check_C01(ctx):
     return "model_checking", fresh, known, cov, ["memdb backend only"]
 
 
-CHECKS = {"C01": check_C01}
+C03_TAGS = {"Converged", "RefEquiv", "SyncNeverFails", "LogReplayable", "BuildNeverFails", "BuildEquiv", "EditNeverFails", "CloneEqRoot"}
+
+
+def check_C03(ctx):
+    build_harness(ctx)
+    quick = ctx.tier == "quick"
+    viols = []
+    behs = gen_sim(ctx, "gc-sim2", 300 if quick else 3000, alphabet="OpsGC", clients="Seq2", editors='{"c1", "c2"}', weight=10)
+    viols += run_family(ctx, "gc-sim2", behs, C03_TAGS)
+    behs = gen_sim(ctx, "gc-sim3", 300 if quick else 3000, alphabet="OpsGC", clients="Seq3", weight=10)
+    viols += run_family(ctx, "gc-sim3", behs, C03_TAGS)
+    fresh, known = split_known(ctx, viols)
+    cov = {"states": sum(r["distinct_states"] for r in ctx.tlc_runs) + ctx.counters.get("trace_states", 0),
+           "transitions": sum(r["states_generated"] for r in ctx.tlc_runs),
+           "traces_validated_against_impl": ctx.counters.get("traces_validated", 0)}
+    return "model_checking", fresh, known, cov, ["memdb backend only"]
+
+
+CHECKS = {"C01": check_C01, "C03": check_C03}
+
+
+def replay(ctx, path):
+    """Re-executes the behaviour of a replay file and validates it alone with
+    NoViolation as a plain TLC INVARIANT (so TLC prints the counterexample)."""
+    import subprocess, shutil, tempfile
+    from core import SPEC, _tlc_env
+    v = json.load(open(path))
+    build_harness(ctx)
+    traces = execute(ctx, [v["behaviour"]], "replay", server_flags=v.get("server_flags"), shards=1)
+    viols = validate(ctx, traces)
+    tags = sorted({x["tag"] for x in viols})
+    print("replayed %s: violated invariants now: %s (recorded: %s)" % (path, tags, v["tag"]))
+    for x in viols[:10]:
+        print("  ", x["tag"], "line", x["line"])
+    return 1 if v["tag"] in tags else 0
+
+
+def shrink(ctx, path, out=None):
+    """Greedy step-removal shrinking of a replay file (keeps the same tag)."""
+    v = json.load(open(path))
+    build_harness(ctx)
+    b = v["behaviour"]
+    tag = v["tag"]
+    steps = list(b["steps"])
+
+    def still(cands):
+        behs = []
+        for i, st in enumerate(cands):
+            nb = dict(b)
+            nb["steps"] = st
+            nb["id"] = "cand-%d" % i
+            behs.append(nb)
+        traces = execute(ctx, behs, "shrink", server_flags=v.get("server_flags"), shards=min(8, max(1, len(behs) // 4)))
+        viols = validate(ctx, traces)
+        bad = {x["tid"] for x in viols if x["tag"] == tag}
+        return [i for i in range(len(cands)) if "cand-%d" % i in bad]
+
+    if not still([steps]):
+        print("not reproduced")
+        return 2
+    changed = True
+    while changed:
+        changed = False
+        # try removing chunks, then single steps
+        for size in (4, 2, 1):
+            i = 0
+            while i < len(steps):
+                cands = []
+                idxs = []
+                j = i
+                while j < len(steps) and len(cands) < 24:
+                    if steps[j]["a"] not in ("attach", "setupsync") or size == 1 and steps[j]["a"] not in ("setupsync",) and j > 2:
+                        cands.append(steps[:j] + steps[j + size:])
+                        idxs.append(j)
+                    j += 1
+                if not cands:
+                    break
+                ok = still(cands)
+                if ok:
+                    steps = cands[ok[0]]
+                    changed = True
+                else:
+                    i = j
+    v["behaviour"] = dict(b, steps=steps)
+    v["shrunk"] = True
+    out = out or path.replace(".json", ".min.json")
+    json.dump(v, open(out, "w"), indent=1)
+    print("shrunk to %d steps -> %s" % (len(steps), out))
+    for s in steps:
+        print("  ", json.dumps(s))
+    return 0
